@@ -279,6 +279,63 @@ where
     (lead, trail, ends_line)
 }
 
+/// Comments around one re-created comma: before it, after it, and whether the latter end the line.
+type CommaComments<'a, D, A> = (DocBuilder<'a, D, A>, DocBuilder<'a, D, A>, bool);
+
+/// `item , item , item` with the commas re-created: `seps[i]` holds the comments of the comma
+/// that followed item i in the source, `gap` is what follows a comma (a soft break or a space).
+/// A trailing comma is dropped, its comments are kept.
+fn join_list_items<'a, D, A>(
+    items: Vec<DocBuilder<'a, D, A>>,
+    seps: &[CommaComments<'a, D, A>],
+    gap: DocBuilder<'a, D, A>,
+    allocator: &'a D,
+) -> DocBuilder<'a, D, A>
+where
+    D: DocAllocator<'a, A>,
+    D::Doc: Clone,
+    A: Clone,
+{
+    let n_items = items.len();
+    let mut doc = allocator.nil();
+    for (i, item) in items.into_iter().enumerate() {
+        doc = doc.append(item);
+        let last = i + 1 == n_items;
+        match (seps.get(i).cloned(), last) {
+            (Some((lead, trail, ends_line)), false) => {
+                doc = doc.append(lead).append(allocator.text(",")).append(trail);
+                if !ends_line {
+                    doc = doc.append(gap.clone());
+                }
+            }
+            (None, false) => doc = doc.append(allocator.text(",")).append(gap.clone()),
+            (Some((lead, trail, _)), true) => doc = doc.append(lead).append(trail),
+            (None, true) => {}
+        }
+    }
+    doc
+}
+
+/// Record the comments of the comma that follows the last of `n_items` items.
+fn push_comma_comments<'a, D, A>(
+    seps: &mut Vec<CommaComments<'a, D, A>>,
+    n_items: usize,
+    token_index: usize,
+    ctx: &PrintContext,
+    allocator: &'a D,
+) where
+    D: DocAllocator<'a, A>,
+    D::Doc: Clone,
+{
+    let comments = emit_token_comments(token_index, ctx, allocator);
+    while seps.len() + 1 < n_items {
+        seps.push((allocator.nil(), allocator.nil(), false));
+    }
+    if seps.len() < n_items {
+        seps.push(comments);
+    }
+}
+
 /// Emit a trivia token (comment or whitespace)
 fn emit_trivia<'a, D, A>(trivia: &Token, source: &str, allocator: &'a D) -> DocBuilder<'a, D, A>
 where
@@ -934,6 +991,7 @@ where
     let mut result = allocator.nil();
     let mut in_params = false;
     let mut params_docs = Vec::new();
+    let mut param_seps: Vec<CommaComments<'a, D, A>> = Vec::new();
     let mut current_param = allocator.nil();
     let mut has_param_content = false;
     let mut after_params = false;
@@ -965,7 +1023,7 @@ where
                             // `||` would be read back as the logical-or operator: keep the bars apart
                             allocator.space()
                         } else {
-                            allocator.intersperse(params_docs.clone(), allocator.text(", "))
+                            join_list_items(params_docs.clone(), &param_seps, allocator.space(), allocator)
                         };
 
                         result = result.append(params_combined);
@@ -974,6 +1032,7 @@ where
                         in_params = false;
                         after_params = true;
                         params_docs.clear();
+                        param_seps.clear();
                         current_param = allocator.nil();
                         has_param_content = false;
                     }
@@ -986,6 +1045,7 @@ where
                         current_param = allocator.nil();
                         has_param_content = false;
                     }
+                    push_comma_comments(&mut param_seps, params_docs.len(), *token_index, ctx, allocator);
                     continue;
                 }
                 TokenKind::Arrow if after_params => {
@@ -1284,6 +1344,7 @@ where
     // We need to group them as: {, [ident = expr], comma, [ident = expr], }
 
     let mut fields: Vec<DocBuilder<'a, D, A>> = Vec::new();
+    let mut seps: Vec<CommaComments<'a, D, A>> = Vec::new();
     let mut current_field = allocator.nil();
     let mut has_current_field = false;
     let mut open_doc = allocator.nil();
@@ -1318,6 +1379,7 @@ where
                         current_field = allocator.nil();
                         has_current_field = false;
                     }
+                    push_comma_comments(&mut seps, fields.len(), *token_index, ctx, allocator);
                     continue;
                 }
                 TokenKind::Assign if in_body => {
@@ -1352,7 +1414,7 @@ where
     if fields.is_empty() {
         open_doc.append(close_doc)
     } else {
-        let fields_doc = allocator.intersperse(fields, breakable_comma(allocator));
+        let fields_doc = join_list_items(fields, &seps, allocator.softline(), allocator);
         open_doc
             .append(fields_doc.nest(get_indent_size() as isize).group())
             .append(close_doc)
@@ -1433,6 +1495,7 @@ where
     let mut open_doc = allocator.nil();
     let mut close_doc = allocator.nil();
 
+    let mut arg_seps: Vec<CommaComments<'a, D, A>> = Vec::new();
     for &child in children.iter() {
         let node = ctx.arena.get(child);
 
@@ -1464,7 +1527,8 @@ where
                     continue;
                 }
                 TokenKind::Comma if in_args => {
-                    // Skip comma - we'll add our own with proper spacing
+                    // Skip comma - we'll add our own with proper spacing (its comments are kept)
+                    push_comma_comments(&mut arg_seps, args.len(), *token_index, ctx, allocator);
                     continue;
                 }
                 _ => {}
@@ -1482,7 +1546,7 @@ where
     if args.is_empty() {
         result.append(open_doc).append(close_doc)
     } else {
-        let args_doc = allocator.intersperse(args, allocator.text(", "));
+        let args_doc = join_list_items(args, &arg_seps, allocator.space(), allocator);
         result.append(open_doc).append(args_doc).append(close_doc)
     }
 }
@@ -1760,7 +1824,7 @@ where
     // Collect items between delimiters, excluding commas
     let mut items = Vec::new();
     // per item: the comments before / after the comma that follows it, and whether they end the line
-    let mut seps: Vec<(DocBuilder<'a, D, A>, DocBuilder<'a, D, A>, bool)> = Vec::new();
+    let mut seps: Vec<CommaComments<'a, D, A>> = Vec::new();
     let mut current: Option<DocBuilder<'a, D, A>> = None;
     let mut open_doc = allocator.nil();
     let mut close_doc = allocator.nil();
@@ -1787,13 +1851,7 @@ where
                     if let Some(item) = current.take() {
                         items.push(item);
                     }
-                    let (lead, trail, ends_line) = emit_token_comments(*token_index, ctx, allocator);
-                    while seps.len() + 1 < items.len() {
-                        seps.push((allocator.nil(), allocator.nil(), false));
-                    }
-                    if seps.len() < items.len() {
-                        seps.push((lead, trail, ends_line));
-                    }
+                    push_comma_comments(&mut seps, items.len(), *token_index, ctx, allocator);
                     continue;
                 }
                 _ => {}
@@ -1819,25 +1877,7 @@ where
     } else {
         // Use softline between items (after comma), but not after opening delimiter
         // This prioritizes breaking at binary operators over breaking at function call boundaries
-        let n_items = items.len();
-        let mut items_doc = allocator.nil();
-        for (i, item) in items.into_iter().enumerate() {
-            items_doc = items_doc.append(item);
-            let sep = seps.get(i).cloned();
-            let last = i + 1 == n_items;
-            match (sep, last) {
-                (Some((lead, trail, ends_line)), false) => {
-                    items_doc = items_doc.append(lead).append(allocator.text(",")).append(trail);
-                    if !ends_line {
-                        items_doc = items_doc.append(allocator.softline());
-                    }
-                }
-                (None, false) => items_doc = items_doc.append(breakable_comma(allocator)),
-                // a trailing comma is dropped, its comments are kept
-                (Some((lead, trail, _)), true) => items_doc = items_doc.append(lead).append(trail),
-                (None, true) => {}
-            }
-        }
+        let items_doc = join_list_items(items, &seps, allocator.softline(), allocator);
         // Wrap in group for proper line breaking
         open_doc
             .append(items_doc.nest(get_indent_size() as isize))
@@ -2021,6 +2061,7 @@ where
     D::Doc: Clone + Pretty<'a, D, A>,
     A: Clone,
 {
+    let mut seps: Vec<CommaComments<'a, D, A>> = Vec::new();
     let mut items = Vec::new();
     let mut found_open = false;
     let mut open_doc = allocator.nil();
@@ -2033,15 +2074,16 @@ where
             let token = &ctx.tokens[*token_index];
             match token.kind {
                 TokenKind::BlockBegin => {
-                    open_doc = allocator.text("{");
+                    open_doc = emit_token_with_trivia(*token_index, ctx, allocator);
                     found_open = true;
                     continue;
                 }
                 TokenKind::BlockEnd => {
-                    close_doc = allocator.text("}");
+                    close_doc = emit_token_with_trivia(*token_index, ctx, allocator);
                     continue;
                 }
                 TokenKind::Comma => {
+                    push_comma_comments(&mut seps, items.len(), *token_index, ctx, allocator);
                     continue;
                 }
                 TokenKind::Ident | TokenKind::IdentFunction | TokenKind::IdentVariable => {
@@ -2062,7 +2104,7 @@ where
     if items.is_empty() {
         open_doc.append(close_doc)
     } else {
-        let items_doc = allocator.intersperse(items, allocator.text(", "));
+        let items_doc = join_list_items(items, &seps, allocator.space(), allocator);
         open_doc.append(items_doc).append(close_doc)
     }
 }
